@@ -517,3 +517,5 @@ def run(ctx: Context) -> None:
     ctx.isolate(r5_deadline_dataflow)
     ctx.isolate(r6_closed_loop)
     ctx.isolate(r7_config_type_agreement)
+    from . import c17
+    ctx.isolate(c17.r6_weights_in_one_unit, _alias={"C17.R6": "C19.R8"})
